@@ -509,6 +509,19 @@ func (b *broker) syncUnsubscribe(subscriber *wamp.Session, msg *wamp.Unsubscribe
 		return
 	}
 
+	// A session that is not subscribed to the subscription cannot unsubscribe
+	// from it.
+	if _, ok = sub.subscribers[subscriber]; !ok {
+		b.trySend(subscriber, &wamp.Error{
+			Type:    msg.MessageType(),
+			Request: msg.Request,
+			Error:   wamp.ErrNoSuchSubscription,
+			Details: wamp.Dict{},
+		})
+		b.log.Println("Error unsubscribing: sender is not subscribed to", subID)
+		return
+	}
+
 	// Remove subscribed session from subscription.
 	delete(sub.subscribers, subscriber)
 
